@@ -148,10 +148,14 @@ def run_coincide(kind, k):
                 sad=sorted(a.kernel.sad), orphan=P.sad_diff(a) if a.alive else None, first=tr['data'], w=w)
 
 
-def run_retrans(kind, lost_req, lost_rep, ticks, horizon=45.0, oneway=False):
+def run_retrans(kind, lost_req, lost_rep, ticks, horizon=45.0, oneway=False, outage=None):
     """returns observations of one deterministic run.  oneway: everything A sends is lost while B keeps talking
-    (its own DPD probes and their retransmissions reach A)"""
+    (its own DPD probes and their retransmissions reach A).  outage=(indices, exc): those of A's next sends (0 = the first
+    retransmission) fail locally with that error."""
     w, tr = build_request(kind)
+    if outage:
+        for i in outage[0]:
+            w.step(('sendfail', 'A', i, outage[1]))
     if oneway:
         for i, sb in enumerate(w.endpoints['B'].controller.ike_sas):
             if sb.state == State.ESTABLISHED:
@@ -252,6 +256,11 @@ def retrans_cases():
                 yield (kind, tuple(sorted(lr)), tuple(sorted(lp)), tuple(fine), True)
         for k in range(0, MAXR):
             yield (kind, 'coincide', k)
+        # A's own sends fail (interface down, route gone): every subset of the retransmissions, and an outage that lasts
+        for sub in subsets(MAXR - 1):
+            yield (kind, 'outage', tuple(sorted(sub)), 'ENETUNREACH')
+        yield (kind, 'outage', tuple(range(64)), 'ENETUNREACH')
+        yield (kind, 'outage', tuple(range(64)), 'EPERM')
         if kind not in ('init', 'init-cookie', 'init-invalid-ke', 'auth'):
             # one-way loss: none of A's datagrams arrives, B's own probes keep arriving at A
             yield (kind, tuple(range(n + 2)), (), tuple(fine), True, True)
@@ -262,6 +271,14 @@ def retrans_cases():
 
 
 def work_retrans(case):
+    if case[1] == 'outage':
+        kind, _, idxs, exc = case
+        try:
+            obs = run_retrans(kind, frozenset(range(64)), frozenset(), [1.0], outage=(idxs, exc))
+        except NotSent:
+            return [('request-never-sent', 'the %s request is not sent at all' % kind)], (0, False, False)
+        res = [r for r in judge_retrans(kind, obs, False) if r[0] in ('daemon-died', 'never-gives-up', 'too-many', 'sad-mismatch')]
+        return [(sig + ':local-send-failure', msg) for sig, msg in res], (len(obs['tx']), False, bool(obs['still_held']))
     if case[1] == 'coincide':
         kind, _, k = case[:3]
         try:
@@ -602,6 +619,12 @@ def main():
         evaluations += 1
         outcomes[('retrans', case[0], outcome)] += 1
         for sig, msg in res:
+            if case[1] == 'outage':
+                ck.violation('retrans:%s:%s:%s' % (sig, case[0], 'lasting' if len(case[2]) > 8 else 'sends-' + ''.join(map(str, case[2]))),
+                             '%s, request kind %s; nothing A sends is answered and its sends number %s (0 = first retransmission) '
+                             'fail with %s' % (msg, case[0], 'all' if len(case[2]) > 8 else list(case[2]), case[3]),
+                             dict(part='retrans', case=case))
+                continue
             if case[1] == 'coincide':
                 ck.violation('retrans:%s:%s:tx%d' % (sig, case[0], case[2]), '%s, request kind %s; the answer to transmission %d '
                              'is the one that arrives' % (msg, case[0], case[2] + 1), dict(part='retrans', case=case))
